@@ -257,8 +257,15 @@ class CallsMixin:
                         self.assign(tgt.value, T(base.k, tuple(items), ty=base.ty), env, mod, fn)
                         return
                     self.unsupported("store into a list at a non-constant position", tgt)
+                has_zeros = any(it_.k == "zeros" for it_ in base.a[0])
                 if idx is not None:
                     lo, n, new = idx, 1, (T("u8", val),)
+                    if has_zeros or not (lo.k == "const"):
+                        out = self._bcat_splice_lin(base, lo, binop("+", lo, C(1)), new, tgt)
+                        if out is None:
+                            self.unsupported("store into a byte string at a position the layout does not determine", tgt)
+                        self.assign(tgt.value, out, env, mod, fn)
+                        return
                 else:
                     sl = tgt.slice
                     if sl.step is not None:
@@ -267,10 +274,19 @@ class CallsMixin:
                     hi = self.ev(sl.upper, env, mod, fn) if sl.upper is not None else None
                     nb = as_bcat(val)
                     from .terms import bcat_len
+                    from .linear import linearize as _lz
+                    if hi is None and nb.k == "bcat" and _lz(lo).key() == _lz(bcat_len(base)).key():
+                        # buf[len(buf):] = more: a slice store at the end appends
+                        self.assign(tgt.value, bcat_concat(base, nb), env, mod, fn)
+                        return
                     ln = bcat_len(nb) if nb.k == "bcat" else None
-                    if hi is None or ln is None or not (lo.k == "const" and hi.k == "const" and ln.k == "const" and isinstance(lo.a[0], int)
-                                                        and isinstance(hi.a[0], int) and 0 <= lo.a[0] <= hi.a[0] and hi.a[0] - lo.a[0] == ln.a[0]):
-                        self.unsupported("slice store that is not a same-length replacement at constant bounds", tgt)
+                    if hi is None or ln is None or has_zeros or not (lo.k == "const" and hi.k == "const" and ln.k == "const" and isinstance(lo.a[0], int)
+                                                                     and isinstance(hi.a[0], int) and 0 <= lo.a[0] <= hi.a[0] and hi.a[0] - lo.a[0] == ln.a[0]):
+                        out = self._bcat_splice_lin(base, lo, hi, nb.a[0], tgt) if nb.k == "bcat" else None
+                        if out is None:
+                            self.unsupported("slice store that is not a same-length replacement at positions the layout determines", tgt)
+                        self.assign(tgt.value, out, env, mod, fn)
+                        return
                     n, new = ln.a[0], nb.a[0]
                 if not (lo.k == "const" and isinstance(lo.a[0], int) and lo.a[0] >= 0):
                     self.unsupported("store into a byte string at a non-constant position", tgt)
@@ -282,6 +298,53 @@ class CallsMixin:
                 self.assign(tgt.value, out, env, mod, fn)
         else:
             self.unsupported("assignment target", tgt)
+
+    def _bcat_splice_lin(self, buf, lo, hi, new_items, node):
+        """buf with the octets [lo, hi) replaced by new_items, for positions that are linear forms (hi None: to the end).
+        Only a run of not-yet-written zero octets (bytearray(n)) can be split at a symbolic position, and only when the
+        pieces before and behind the range have lengths that are constants or differ from the run's length by constants;
+        the new items must have exactly the length of the range.  -> bcat or None (shape not decidable)"""
+        from .linear import linearize, Lin
+        from .terms import bcat_len
+
+        def lt(l):
+            t_ = C(l.c)
+            for a_, v_ in sorted(l.co.items(), key=lambda kv: show(kv[0])):
+                t_ = binop("+", t_, a_ if v_ == 1 else binop("*", C(v_), a_))
+            return t_
+        items = list(buf.a[0])
+        total = linearize(bcat_len(buf))
+        lo_l = linearize(lo)
+        hi_l = total if hi is None else linearize(hi)
+        new_len = linearize(bcat_len(bcat(tuple(new_items))))
+        if (hi_l - lo_l).key() != new_len.key():
+            return None
+        pos = Lin({}, 0)
+        out = []
+        done = False
+        for idx_, it_ in enumerate(items):
+            ln = linearize(item_len(it_))
+            if not done and it_.k == "zeros":
+                before, after = lo_l - pos, (pos + ln) - hi_l
+                ok_b = before.is_const() and before.c >= 0
+                ok_a = (after.is_const() and after.c >= 0) or (not after.is_const() and all(v_ > 0 for v_ in after.co.values()) and after.c >= 0)
+                if ok_b and ok_a:
+                    if before.c > 0:
+                        out.append(T("lit", bytes(before.c)))
+                    out += list(new_items)
+                    if not (after.is_const() and after.c == 0):
+                        out.append(T("lit", bytes(after.c)) if after.is_const() else T("zeros", lt(after)))
+                    done = True
+                    pos = pos + ln
+                    continue
+            if not done and (lo_l - pos).is_const() and (lo_l - pos).c == 0 and (hi_l - pos - ln).is_const() and (hi_l - pos - ln).c == 0:
+                out += list(new_items)      # exactly one whole item is replaced
+                done = True
+                pos = pos + ln
+                continue
+            out.append(it_)
+            pos = pos + ln
+        return bcat(tuple(out)) if done else None
 
     def _bcat_splice(self, buf, off, n, new_items, node):
         """buf with the n octets at constant offset `off` replaced by new_items (n == 0: nothing to do); None if the
@@ -932,6 +995,8 @@ class CallsMixin:
                 return bcat(tuple(T("u8", x) for x in a.a[0]))
             if a.k == "const" and isinstance(a.a[0], int):
                 return bcat((T("lit", bytes(a.a[0])),)) if a.a[0] else bcat()
+            if a.ty == "int" or (a.k == "op" and a.a[0] in ("+", "-", "*")) or (a.k == "un" and a.a[0] == "len"):
+                return bcat((T("zeros", a),))       # bytearray(n): a buffer of n zero octets to be filled in
             return as_bcat(a)
         if name == "struct.pack":
             fmt = args[0]
